@@ -188,3 +188,15 @@ Proof.
     + destruct failed_rule_is_ignored_and_reported as [E _]. rewrite E.
       cbn [c_rules c_ignored]. rewrite app_length. cbn [length]. lia.
 Qed.
+
+(* ---- where the hypothesis "an aborted rule carries an error" comes from (Compiler/CstAgreement.v) *)
+From YV Require Import Compiler.CstAgreement.
+
+(* exactly one place of cst2ast.rs aborts without an ERROR node and without pushing an error: the
+   kind test of Builder::begin *)
+Lemma one_silent_abort_site : silent_abort_sites = 1.
+Proof. vm_compute. reflexivity. Qed.
+
+(* ... and the grammar / builder pair is the one that was reviewed *)
+Lemma cst_shape_pinned : cst_shape_digest = pinned_cst_shape.
+Proof. vm_compute. reflexivity. Qed.
